@@ -77,7 +77,7 @@ def generate(rng, tier):
                            "which": "request", "edits": [{"k": "host", "value": h2}, {"k": "port", "value": p2}]})
         if r.random() < 0.3:
             policy.append({"hook": "requestheaders", "nth": k, "latency": 0, "action": "edit", "which": "request",
-                           "edits": [{"k": "via", "value": r.choice(VIAS)}]})
+                           "edits": [{"k": r.choice(["via", "via", "replace_server_conn"]), "value": r.choice(VIAS)}]})
         if r.random() < 0.15:
             policy.append({"hook": r.choice(["responseheaders", "response"]), "nth": k, "latency": 0,
                            "action": "poke_server_conn"})
